@@ -209,15 +209,17 @@ def compose(later, earlier):
 # --------------------------------------------------------------------------- independent interpolation matrix
 
 
-def interp_matrix(xgrid, deg, targets, with_amplification=False):
-    """R[i][j] = p_j(target_i): log-Lagrange interpolation as documented in doc/source/theory/Interpolation.rst.
+def interp_matrix(xgrid, deg, targets, with_amplification=False, log=True):
+    """R[i][j] = p_j(target_i): Lagrange interpolation as documented in doc/source/theory/Interpolation.rst, in the
+    variable t = ln x (``log=True``, the documented default) or t = x (``log=False``, interpolation_is_log False).
 
     With ``with_amplification`` also A[i][j] = prod_{k != j} (|t| + |t_k|) / |t_j - t_k| >= sum_i |c_i| |t|^i, the
     bound on the size of the monomial terms of p_j at the target (what a monomial-form evaluation rounds against).
 
     Areas A_j = (x_j, x_{j+1}]; the block of deg+1 points in which the area lies most central (for a tie the one
     closer to x = 1), shifted inside the grid at the borders; Lagrange polynomials in ln x in product form."""
-    t = [math.log(x) for x in xgrid]
+    tr = math.log if log else float
+    t = [tr(x) for x in xgrid]
     n = len(t)
     below = (deg - 1) // 2
 
@@ -231,8 +233,8 @@ def interp_matrix(xgrid, deg, targets, with_amplification=False):
 
     rows, amps = [], []
     for x in targets:
-        lx = math.log(x)
-        if not (t[0] * (1 + 1e-14) - 1e-14 <= lx <= 1e-14):
+        lx = tr(x)
+        if not (t[0] - 1e-14 * max(1.0, abs(t[0])) <= lx <= t[-1] + 1e-14 * max(1.0, abs(t[-1]))):
             raise ValueError(f"target {x} outside the grid")
         area = 0
         for i in range(n - 1):
